@@ -880,7 +880,9 @@ fn connack_step(n: usize) {
             assert!(st.max_outgoing_inflight == old_max, "C07 connack.err_state_unchanged");
         }
     }
-    assert!(frame(&g, &h, NONE, NONE) && h.inflight == g.inflight && h.collision == g.collision && h.last_pkid == g.last_pkid, "C07 connack.frame");
+    assert!(frame(&g, &h, NONE, NONE) && h.inflight == g.inflight && h.collision == g.collision, "C07 connack.frame");
+    // the id counter is untouched unless it fell outside the (lowered) window, in which case the cycle restarts
+    assert!(h.last_pkid == g.last_pkid || (g.last_pkid >= st.max_outgoing_inflight && h.last_pkid == 0), "C07 connack.id_counter");
     // the packet-id counter must stay below the (possibly lowered) window, and the window must be usable
     assert!(wf_g(&st, &h), "C07 connack.wf_after_receive_max");
     kani::cover!(r.is_ok() && st.max_outgoing_inflight < old_max, "window lowered");
